@@ -13,7 +13,9 @@ ID = "C17"
 RULE = ("relay histories through a real ServerManager and the extracted model: retry budget in {forever, never, 2} x auto-stop in "
         "{never, immediately, 5000 ms} x {attempt fails, succeeds, overtaken by a publisher, stopped / kicked while in flight or attached}, "
         "static relay pull, consumer present / gone for less / more than the window (clock shifted by the hook), relay push with 1-2 "
-        "targets (connects, fails, closes, publisher leaves while connecting), seeded random relay histories; plus the client message "
+        "targets (connects, fails, closes, publisher leaves while connecting), requests through the real HTTP API server (start_relay_pull / "
+        "stop_relay_pull / kick_session / start_rtp_pub with every numeric key absent / null / 0 / -1 / positive / malformed, required keys "
+        "missing) each followed by the observation of the rule the key feeds, seeded random relay histories; plus the client message "
         "packer over a length sweep of app / tcUrl / stream+parameters around every buffer, chunk and AMF0 string boundary; "
         "a case is non-trivial when its line is new and the model reports no malformed op")
 ASSUMPTIONS = c03.ASSUMPTIONS + [
@@ -88,18 +90,56 @@ def gen_relay():
             yield Case(line(["fs.1.90", "rp.1.1.L%d" % n, "pushok.1.0", "media.1", "tick.1", "gone.1", "tick.2"], cfg), cls="push-long-url")
 
 
+def gen_httpapi():
+    # the HTTP API in front of the rules: every numeric key of a request absent / null / 0 / -1 / positive / malformed, one at
+    # a time and together, each followed by the observation of the rule the key feeds
+    def hp(t="a", r="a", a="a", m="a", fl="-"):
+        return "hpull.1.%s.%s.%s.%s.%s" % (t, r, a, m, fl)
+    tails = {
+        "idle": lambda h: [h, "pfail.1.0", "tick.1", "pfail.1.0", "tick.2", "pfail.1.0", "tick.3", "tick.4"],
+        "watched": lambda h: ["fs.1.90", h, "psucc.1.0", "tick.1", "gone.90", "tick.2", "adv.6000", "tick.3", "tick.4", "fs.1.91", "tick.5", "pfail.1.0", "tick.6"],
+    }
+    one = [hp(t=v) for v in ("a", "z", "0", "7000", "30000", "q")] + [hp(r=v) for v in ("z", "0", "n1", "1", "2", "q")] + \
+          [hp(a=v) for v in ("z", "0", "n1", "1", "5000", "q")] + [hp(m=v) for v in ("z", "0", "1", "q")]
+    for h in one:
+        for tk, tail in tails.items():
+            yield Case(line(tail(h)), cls="httpapi-pull-one-" + tk)
+    for r in ("0", "n1", "2"):
+        for a in ("0", "n1", "5000"):
+            for fl in ("-", "n", "r", "rn"):
+                h = hp("30000", r, a, "0", fl)
+                yield Case(line(tails["idle" if fl in ("-", "r") else "watched"](h)), cls="httpapi-pull-all")
+    # required keys, second request replaces the settings, static pull + api
+    yield Case(line([hp(fl="u"), hp(fl="un"), "tick.1", hp(a="0"), "fs.1.90", hp(a="0"), "pfail.1.0", "tick.2", hp(r="n1"), "pfail.1.0", "tick.3", "pfail.1.0", "tick.4"]), cls="httpapi-pull-req")
+    yield Case(line(["fs.1.90", hp(r="q"), hp(a="q", fl="n"), hp(), "hxpull.a", "hxpull.2", "hxpull.1", "hxpull.1", "tick.1", hp(r="2"), "psucc.1.0", "hxpull.1", "tick.2"]), cls="httpapi-pull-req")
+    yield Case(line(["fs.1.90", "psucc.1.0", hp(a="0"), "gone.90", "tick.1", "tick.2", hp(a="n1"), "tick.3", "hxpull.1", "tick.4"], "static=1"), cls="httpapi-pull-req")
+    # kick_session: both keys required
+    yield Case(line(["rp.1.1", "fs.1.90", "hkick.a.c1", "hkick.1.a", "hkick.a.a", "hkick.2.c1", "hkick.1.c7", "hkick.1.c90", "hkick.1.c1", "gone.1", "gone.90", "tick.1"]), cls="httpapi-kick")
+    yield Case(line(["fs.1.90", hp(r="n1"), "hkick.1.p1_1", "psucc.1.0", "hkick.a.p1_1", "hkick.1.p1_1", "tick.1", "psucc.1.0", "hkick.1.p1_1", "tick.2"]), cls="httpapi-kick")
+    # start_rtp_pub: port / timeout_ms / is_tcp_flag
+    for i, (p_, t, f_) in enumerate([("a", "a", "a"), ("0", "0", "0"), ("z", "z", "z"), ("a", "70000", "1"), ("0", "5000", "5"), ("a", "999", "n1"),
+                                     ("q", "a", "a"), ("a", "q", "a"), ("a", "a", "q")]):
+        yield Case(line(["hpp.1.1.%s.%s.%s" % (p_, t, f_), "tick.1", "rp.1.2", "hpp.1.3.%s.%s.%s" % (p_, t, f_), "gone.2", "tick.2", "hkick.1.c1", "tick.3",
+                         "hpp.1.4.a.a.a", "hpp.a.5.a.a.a", "kick.1.c4", "tick.4"]), cls="httpapi-rtppub")
+    # a start_rtp_pub publisher over tcp ends like any other: kick, dispose
+    yield Case(line(["fs.1.90", "hpp.1.1.a.a.1", "rp.1.2", "tick.1", "kick.1.c1", "gone.2", "rp.1.3", "tick.2", "hpp.2.4.a.0.1", "dispose"]), cls="httpapi-rtppub")
+
+
 def rand_relay(rng, n_ops):
     ops = ["fs.1.90"] if rng.random() < 0.5 else []
     nid = [1]
     live = [(90, "fs", 1)] if ops else []
     for _ in range(n_ops):
         r = rng.random()
-        if r < 0.18:
+        if r < 0.05:
+            ops.append("hpull.1.%s.%s.%s.%s.%s" % (rng.choice(["a", "30000", "z"]), rng.choice(["a", "n1", "0", "1", "2", "z"]),
+                                                   rng.choice(["a", "n1", "0", "5000", "z"]), rng.choice(["a", "0"]), rng.choice(["-", "n", "r", "u"])))
+        elif r < 0.18:
             ops.append("spull.1.%s.%s%s" % (rng.choice(["n1", "0", "1", "2"]), rng.choice(["n1", "0", "5000"]), rng.choice(["", "", ".rtsp"])))
         elif r < 0.42:
             ops.append("%s.1.0" % rng.choice(["psucc", "pfail", "pdone", "psucc", "pfail"]))
         elif r < 0.50:
-            ops.append("xpull.1")
+            ops.append(rng.choice(["xpull.1", "xpull.1", "hxpull.1", "hxpull.a"]))
         elif r < 0.68:
             ops.append("tick.%d" % rng.choice([1, 2, 3, 5, 7]))
         elif r < 0.76:
@@ -145,6 +185,7 @@ def gen_pack(tier, rng):
 
 
 def gen_cases(tier, rng):
+    yield from gen_httpapi()
     yield from gen_relay()
     n = 120 if tier == "quick" else 20000
     for _ in range(n):
@@ -172,11 +213,14 @@ def oracle_run(c, out):
     cfg = dict(kv.split("=") for kv in f[1].split(",")) if f[1] != "-" else {}
     static = cfg.get("static") == "1"
     npush = int(cfg.get("push", "0"))
+    # a request through the HTTP API is the direct call it must amount to (checked by c03.api_layer)
+    err, ops, out = c03.api_layer(f[2].split(","), out)
+    if err:
+        return (False, err)
     try:
         steps = c03.parse_out(out)
     except ValueError as e:
         return (False, str(e))
-    ops = f[2].split(",")
     if len(steps) != len(ops):
         return (False, "the implementation answered %d of %d events" % (len(steps), len(ops)))
     now = 0
